@@ -9,7 +9,7 @@ mkdir -p "$OUT"
 git -C /repo worktree remove --force "$WT" 2>/dev/null; rm -rf "$WT"
 git -C /repo worktree add -q --detach "$WT" HEAD || exit 2
 cd "$WT" && git apply "$OUT/patch.diff" || { echo "patch does not apply"; exit 2; }
-mkdir -p _seeded; cp "$OUT/equiv.py" _seeded/ 2>/dev/null; cp "$OUT"/golden*.pt "$OUT"/golden*.json "$OUT"/ref_trace.pt "$OUT"/ref_traj.pt "$OUT"/ref_digest*.json _seeded/ 2>/dev/null; sed -i "s#/tmp/w[0-9]_C[0-9]*#$WT#g" _seeded/equiv.py 2>/dev/null
+mkdir -p _seeded; cp "$OUT/equiv.py" _seeded/ 2>/dev/null; cp "$OUT"/golden*.pt "$OUT"/golden*.json "$OUT"/ref_trace.pt "$OUT"/ref_traj.pt "$OUT"/ref_digest*.json _seeded/ 2>/dev/null; sed -i "s#/tmp/w[0-9][0-9]*_C[0-9]*#$WT#g" _seeded/equiv.py 2>/dev/null
 timeout 900 /venv/bin/python _seeded/equiv.py > /tmp/equiv_$ID.log 2>&1; RC_EQ=$?
 TESTS=$(timeout 1800 /venv/bin/python -m pytest -q -p no:cacheprovider --timeout=900 --continue-on-collection-errors --ignore=_seeded 2>&1 | tail -1)
 echo "equiv rc=$RC_EQ tests: $TESTS"
